@@ -417,6 +417,42 @@ def reapCrash (A : DbAlg D) (s : FS D) (newName : Nat) (verify : Bool) (c : Reap
         | .ok s' => { s' with plan := none }
         | .error _ => runCut A p p.length .none { s with plan := some p }
 
+/-! ### the verification steps of reapInternal (as of `fix:` 65f298a)
+On a fresh reap (no REAP_PLAN to resume) reapInternal first runs `ensureVerified` (the store-wide
+CRC check, once per process) and, when the plan will consolidate WAL files, `inputs.Check` (the
+recorded checksums of exactly the files about to be consolidated). Both happen BEFORE the plan is
+built or written; a mismatch ends the reap — the process, in production — with nothing touched.
+Whether the checksums match is C12's; here the two outcomes are inputs. -/
+
+/-- will a reap of this catalog checkpoint WAL files? -/
+def consolidates (snaps : List (Snap D)) : Bool :=
+  match splitLastFull snaps with
+  | some (_, full, newers) => snaps.length != 1 && !(walPaths full ++ newers.flatMap walPaths).isEmpty
+  | none => false
+
+/-- does the verification let the reap proceed? (a plan to resume is executed without it) -/
+def reapGate (s : FS D) (verifiedOK inputsOK : Bool) : Except String Unit :=
+  match s.plan with
+  | some _ => .ok ()
+  | none =>
+    if !verifiedOK then .error "verify-crc"
+    else
+      match scan s with
+      | .error _ => .ok ()
+      | .ok snaps => if consolidates snaps && !inputsOK then .error "inputs-crc" else .ok ()
+
+/-- Store.reapInternal with its verification steps, run to completion -/
+def reapChecked (A : DbAlg D) (s : FS D) (newName : Nat) (verify verifiedOK inputsOK : Bool) : Except String (FS D) :=
+  match reapGate s verifiedOK inputsOK with
+  | .error e => .error e
+  | .ok () => reap A s newName verify
+
+/-- … and interrupted anywhere (the verification reads only) -/
+def reapCrashChecked (A : DbAlg D) (s : FS D) (newName : Nat) (verify verifiedOK inputsOK : Bool) (c : ReapCut) : FS D :=
+  match reapGate s verifiedOK inputsOK with
+  | .error _ => s
+  | .ok () => reapCrash A s newName verify c
+
 inductive RecCut where
   | atStart
   /-- REAP_PLAN.tmp removed, nothing else -/
